@@ -408,3 +408,149 @@ def rule_rk_json_falsy(prog: Program, report: Report) -> None:
                     else:
                         report.ob("RK-json-falsy", fn.key, f"key \"{k.value}\" omitted only for the single falsy value of `{src(atom)}` ({'/'.join(sorted(classes)) or 'object'})")
     report.count("RK truthiness-guarded JSON keys", n)
+
+
+# ------------------------------------------------------------------ RK-tags / RX-conv
+def _const_eval(e: ast.AST, env: dict) -> object:
+    """Constant folding of the literal forms a rule list is written in (displays, f-strings,
+    `+`, str(), range(), one-generator comprehensions); raises ValueError on anything else."""
+    if isinstance(e, ast.Constant):
+        return e.value
+    if isinstance(e, ast.Name):
+        if e.id in env:
+            return env[e.id]
+        raise ValueError(e.id)
+    if isinstance(e, ast.JoinedStr):
+        out = ""
+        for v in e.values:
+            if isinstance(v, ast.Constant):
+                out += str(v.value)
+            elif isinstance(v, ast.FormattedValue) and v.format_spec is None and v.conversion == -1:
+                out += str(_const_eval(v.value, env))
+            else:
+                raise ValueError("f-string")
+        return out
+    if isinstance(e, ast.BinOp) and isinstance(e.op, ast.Add):
+        a, b = _const_eval(e.left, env), _const_eval(e.right, env)
+        if type(a) is type(b) and isinstance(a, (str, int, list)):
+            return a + b  # type: ignore[operator]
+        raise ValueError("+")
+    if isinstance(e, ast.Call) and isinstance(e.func, ast.Name) and not e.keywords:
+        args = [_const_eval(a, env) for a in e.args]
+        if e.func.id == "str" and len(args) == 1:
+            return str(args[0])
+        if e.func.id == "range" and 1 <= len(args) <= 3 and all(isinstance(a, int) for a in args):
+            return list(range(*args))  # type: ignore[arg-type]
+        raise ValueError(e.func.id)
+    if isinstance(e, (ast.List, ast.Tuple)):
+        out_l: list = []
+        for x in e.elts:
+            if isinstance(x, ast.Starred):
+                v = _const_eval(x.value, env)
+                if not isinstance(v, list):
+                    raise ValueError("*")
+                out_l += v
+            else:
+                out_l.append(_const_eval(x, env))
+        return out_l
+    if isinstance(e, ast.Dict):
+        d = {}
+        for k, v in zip(e.keys, e.values):
+            if k is None:
+                raise ValueError("**")
+            kk = _const_eval(k, env)
+            try:
+                d[kk] = _const_eval(v, env)
+            except ValueError:
+                d[kk] = v  # a lambda etc.: kept as syntax
+        return d
+    if isinstance(e, ast.ListComp) and len(e.generators) == 1 and not e.generators[0].ifs and isinstance(e.generators[0].target, ast.Name):
+        it = _const_eval(e.generators[0].iter, env)
+        if not isinstance(it, list):
+            raise ValueError("iter")
+        return [_const_eval(e.elt, {**env, e.generators[0].target.id: x}) for x in it]
+    raise ValueError(type(e).__name__)
+
+
+HEADING_LEVELS = (1, 2, 3, 4, 5, 6)  # HTML has h1..h6; the bundled heading exports `h{level}`
+
+
+def rule_rk_tags(prog: Program, report: Report) -> None:
+    """Bundled schemas: what a node or mark is exported as is recognised on import - for every
+    element name its toDOM can produce there is a parse rule of the same spec with that tag
+    (the export/import identity of C19 starts there)."""
+    report.rules.append("RK-tags")
+    n = 0
+    for rel in ("prosemirror/schema/basic/schema_basic.py", "prosemirror/schema/list/schema_list.py"):
+        m = prog.module(rel)
+        consts = {}
+        for st in m.tree.body:
+            if isinstance(st, ast.Assign) and len(st.targets) == 1 and isinstance(st.targets[0], ast.Name):
+                consts[st.targets[0].id] = st.value
+            elif isinstance(st, ast.AnnAssign) and isinstance(st.target, ast.Name) and st.value is not None:
+                consts[st.target.id] = st.value
+        for d in ast.walk(m.tree):
+            if not isinstance(d, ast.Dict):
+                continue
+            keys = {k.value: v for k, v in zip(d.keys, d.values) if isinstance(k, ast.Constant)}
+            if "parseDOM" not in keys or "toDOM" not in keys:
+                continue
+            td = keys["toDOM"]
+            body = td.body if isinstance(td, ast.Lambda) else None
+            if isinstance(body, ast.Name) and body.id in consts:
+                body = consts[body.id]
+            if not isinstance(body, (ast.List, ast.Tuple)) or not body.elts:
+                report.errors.append(f"RK-tags: {rel}: a toDOM at line {getattr(td, 'lineno', 0)} is not a list display (unrecognised idiom; found 0 time(s) in a recognised form)")
+                continue
+            head = body.elts[0]
+            out_tags: list[str]
+            if isinstance(head, ast.Constant) and isinstance(head.value, str):
+                out_tags = [head.value]
+            elif isinstance(head, ast.JoinedStr) and len(head.values) == 2 and isinstance(head.values[0], ast.Constant) and head.values[0].value == "h":
+                out_tags = [f"h{i}" for i in HEADING_LEVELS]
+            else:
+                report.errors.append(f"RK-tags: {rel}: the element name `{src(head)[:40]}` of a toDOM is computed in an unrecognised way (found 0 time(s) in a recognised form)")
+                continue
+            try:
+                rules = _const_eval(keys["parseDOM"], {})
+            except ValueError as ex:
+                report.errors.append(f"RK-tags: {rel}: the parseDOM list next to `{src(head)[:30]}` cannot be folded to a literal ({ex}); found 0 time(s) in a recognised form")
+                continue
+            tags = [r.get("tag") for r in rules if isinstance(r, dict) and isinstance(r.get("tag"), str)]  # type: ignore[union-attr]
+            for t in out_tags:
+                n += 1
+                if any(x == t or x.startswith(t + "[") or x.startswith(t + ".") or x.startswith(t + ":") for x in tags):
+                    report.ob("RK-tags", rel, f"<{t}> written by toDOM is read back by a parse rule of the same spec")
+                else:
+                    report.violate("RK-tags", f"{rel}::<spec exporting {out_tags[0]}..>", keys["parseDOM"], f"exported <{t}> has no parse rule", f"the spec's toDOM writes <{t}> but its parseDOM rules only know {sorted(tags)}: a document exported to HTML and parsed back loses this node (it degrades to the default block or is dropped)", what="every exported element name has a parse rule in the same spec")
+    report.count("RK-tags exported element names", n)
+    report.expect_at_least("RK-tags", "exported element names", n, 16)
+
+
+def rule_rx_conv(prog: Program, report: Report) -> None:
+    """HTML import is total: an attribute string taken from the DOM is not converted with int() /
+    float() outside a `try` - `<ol start="iii">` must not make the parser raise."""
+    from ..core import parent_of
+
+    report.rules.append("RX-conv")
+    n = 0
+    for rel in ("prosemirror/schema/basic/schema_basic.py", "prosemirror/schema/list/schema_list.py", "prosemirror/model/from_dom.py"):
+        m = prog.module(rel)
+        for c in ast.walk(m.tree):
+            if isinstance(c, ast.Call) and isinstance(c.func, ast.Name) and c.func.id in ("int", "float") and c.args:
+                arg = c.args[0]
+                if not any(isinstance(x, ast.Call) and isinstance(x.func, ast.Attribute) and x.func.attr in ("get", "attrib", "text_content") for x in ast.walk(arg)):
+                    continue
+                n += 1
+                cur = parent_of(c)
+                guarded = False
+                while cur is not None:
+                    if isinstance(cur, ast.Try) and any(h.type is None or "ValueError" in src(h.type) or "Exception" in src(h.type) for h in cur.handlers):
+                        guarded = True
+                        break
+                    cur = parent_of(cur)
+                if guarded:
+                    report.ob("RX-conv", rel, f"`{src(c)[:50]}` converts a DOM attribute inside a try that handles ValueError")
+                else:
+                    report.violate("RX-conv", rel, c, f"`{src(c)[:60]}` converts a DOM attribute string unguarded", f"`{src(c)[:60]}` raises ValueError / TypeError for an element whose attribute is missing or not a number; parsing arbitrary HTML must not raise", what="numeric conversions of DOM attributes are guarded")
+    report.count("RX-conv numeric conversions of DOM attributes", n)
